@@ -115,6 +115,13 @@ _SAFE_METHODS = {
 }
 
 
+def _is(a, b) -> bool:
+    """`a is b` for folded values: decidable only against None / True / False."""
+    if a is None or b is None or isinstance(a, bool) or isinstance(b, bool):
+        return a is b
+    raise Unfoldable("identity of values")
+
+
 class Folder:
     def __init__(self, prog: Program):
         self.prog = prog
@@ -324,6 +331,8 @@ class Folder:
                 ast.GtE: lambda: a >= b,
                 ast.In: lambda: a in b,
                 ast.NotIn: lambda: a not in b,
+                ast.Is: lambda: _is(a, b),
+                ast.IsNot: lambda: not _is(a, b),
             }
             if type(op) in table:
                 return table[type(op)]()
@@ -331,6 +340,16 @@ class Folder:
         if isinstance(n, ast.IfExp):
             c = self._f(n.test, mod, env)
             return self._f(n.body if c else n.orelse, mod, env)
+        if isinstance(n, ast.BoolOp):
+            # short circuit, left to right, the value of the deciding operand (as Python does)
+            val = None
+            for v_ in n.values:
+                val = self._f(v_, mod, env)
+                if isinstance(n.op, ast.And) and not val:
+                    return val
+                if isinstance(n.op, ast.Or) and val:
+                    return val
+            return val
         if isinstance(n, ast.Starred):
             raise Unfoldable("starred outside display")
         raise Unfoldable(type(n).__name__)
@@ -469,6 +488,22 @@ class Folder:
         finally:
             self._depth -= 1
 
+    def eval_body(self, fn: Func, symenv: Dict[str, Any]) -> Any:
+        """Value returned by the body of `fn` when the access paths in `symenv` ("self.platform", "self._is_tcp()", ...)
+        have the given constant values: straight-line partial evaluation (assignments to locals, `if` on foldable tests,
+        `for` over known sequences, one `return`).  UNKNOWN when something does not fold."""
+        self._steps = 0
+        self._depth = getattr(self, "_depth", 0) + 1
+        try:
+            done, val = self._block(fn.node.body, fn.module, dict(symenv))
+            return val if done else None
+        except Unfoldable:
+            return UNKNOWN
+        except (TypeError, ValueError, KeyError, IndexError, ZeroDivisionError, AttributeError, OverflowError):
+            return UNKNOWN
+        finally:
+            self._depth -= 1
+
     def _block(self, stmts, mod: Module, env: Dict[str, Any]):
         import copy as _copy
 
@@ -512,14 +547,20 @@ class Folder:
                 if done:
                     return True, val
                 continue
-            if isinstance(st, ast.For) and isinstance(st.target, ast.Name) and not st.orelse:
+            if isinstance(st, ast.For) and isinstance(st.target, (ast.Name, ast.Tuple)) and not st.orelse:
                 seq = self._f(st.iter, mod, env)
                 if not isinstance(seq, (list, tuple, str, range, set, dict)):
                     raise Unfoldable("iter")
                 if any(isinstance(x, (ast.Break, ast.Continue)) for b in st.body for x in ast.walk(b)):
                     raise Unfoldable("break/continue")
                 for item in list(seq):
-                    env[st.target.id] = item
+                    if isinstance(st.target, ast.Name):
+                        env[st.target.id] = item
+                    else:
+                        if not all(isinstance(e, ast.Name) for e in st.target.elts) or not isinstance(item, (tuple, list)) or len(item) != len(st.target.elts):
+                            raise Unfoldable("unpack")
+                        for e, v_ in zip(st.target.elts, item):
+                            env[e.id] = v_
                     done, val = self._block(st.body, mod, env)
                     if done:
                         return True, val
